@@ -14,6 +14,7 @@ package main
 //	             when X's tag head already names its slot.  After the save the
 //	             treasure is read back into the same type and into a probe struct with the exact metadata tags.
 //	             reply: ok | bad | err-shape | bad-op
+//	val …        value round trips per Go kind: see c22val.go
 //
 // T is hex ("-" = empty tag).
 
@@ -140,6 +141,8 @@ func c22Gen(rng *rand.Rand, tier string, w *bufio.Writer) {
 	for i := 0; i < nRt; i++ {
 		emitRt(c22RandTag(rng))
 	}
+	fmt.Fprintln(w, "case 3")
+	c22GenVals(rng, tier, func(l string) { fmt.Fprintln(w, l) })
 }
 
 // ---- unit probes -----------------------------------------------------------------------------
@@ -451,8 +454,11 @@ func c22Run(in *bufio.Scanner, w *bufio.Writer) {
 			}
 			fmt.Fprintf(w, "shape=%s body=%s es=%s et=%s ds=%s dt=%s\n", sh, strings.Join(hx, ","),
 				c22EncProbe(t, false), c22EncProbe(t, true), c22DecProbe(t, false), c22DecProbe(t, true))
-		case f[0] == "rt" && len(f) == 4:
+		case (f[0] == "rt" && len(f) == 4) || (f[0] == "val" && len(f) == 5) || (f[0] == "upd" && len(f) == 6):
 			t, ok := tagOf(f[1])
+			if f[0] != "rt" {
+				t, ok = "", true
+			}
 			if !ok {
 				fmt.Fprintln(w, "bad-op")
 				continue
@@ -475,7 +481,13 @@ func c22Run(in *bufio.Scanner, w *bufio.Writer) {
 					fmt.Fprintln(os.Stderr, "c22: register:", errs)
 				}
 			}
-			fmt.Fprintln(w, c22Rt(sdk, idx, t, f[2], f[3]))
+			if f[0] == "val" {
+				fmt.Fprintln(w, c22Val(sdk, idx, f[1], f[2], f[3], f[4], ""))
+			} else if f[0] == "upd" {
+				fmt.Fprintln(w, c22Val(sdk, idx, f[1], f[2], f[3], f[4], f[5]))
+			} else {
+				fmt.Fprintln(w, c22Rt(sdk, idx, t, f[2], f[3]))
+			}
 		default:
 			fmt.Fprintln(w, "bad-op")
 		}
